@@ -39,7 +39,17 @@ type C17Case struct {
 	// DBErr: the location database fails for some clients (an IPv4-only database asked about an IPv6 client, a
 	// corrupt record): their tunnel time counts all the same
 	DBErr bool    `json:"db_err,omitempty"`
-	Ops   []C17Op `json:"ops"`
+	// NumIDs: the access keys are called 23, 3 and 1 instead of key-0, key-1, key-2 (Outline numbers its keys), and
+	// the clients include 20.0.0.1 and 20.0.0.12: address and id of different clients may read alike when joined
+	NumIDs bool    `json:"num_ids,omitempty"`
+	Ops    []C17Op `json:"ops"`
+}
+
+func (c C17Case) keyID(k int) string {
+	if c.NumIDs {
+		return []string{"23", "3", "1"}[k]
+	}
+	return fmt.Sprintf("key-%d", k)
 }
 
 var c17IPs = []string{"203.0.113.1", "203.0.113.2", "2001:db8::7", "198.51.100.9", "127.0.0.1", "10.0.0.5", "::ffff:203.0.113.1"}
@@ -47,6 +57,14 @@ var c17IPs = []string{"203.0.113.1", "203.0.113.2", "2001:db8::7", "198.51.100.9
 func genC17(maxOps int) func(t *rapid.T) C17Case {
 	return func(t *rapid.T) C17Case {
 		c := C17Case{IPs: rapid.SliceOfNDistinct(rapid.SampledFrom(c17IPs), 1, 4, rapid.ID[string]).Draw(t, "ips"), Keys: rapid.IntRange(1, 3).Draw(t, "keys"), DB: rapid.Bool().Draw(t, "db"), DBErr: rapid.IntRange(0, 2).Draw(t, "dberr") == 0}
+		if rapid.IntRange(0, 3).Draw(t, "numIDs") == 0 {
+			c.NumIDs = true
+			c.IPs = []string{"20.0.0.1", "20.0.0.12"}
+			if rapid.Bool().Draw(t, "third") {
+				c.IPs = append(c.IPs, "20.0.0.123")
+			}
+			c.Keys = 3
+		}
 		n := rapid.IntRange(1, maxOps).Draw(t, "nops")
 		for i := 0; i < n; i++ {
 			op := C17Op{Kind: rapid.SampledFrom([]string{"tcpOpen", "tcpOpen", "tcpAuth", "tcpAuth", "tcpClose", "udpAdd", "udpRemove", "advance", "advance", "scrape", "scrape"}).Draw(t, "kind")}
@@ -177,7 +195,7 @@ func c17InBubble(c C17Case, info *kit.Info) *kit.Finding {
 			if scrapedAfterClose[k] {
 				reopenAfterScrape = true
 			}
-			x.tcp.AddAuthenticated(fmt.Sprintf("key-%d", op.Key))
+			x.tcp.AddAuthenticated(c.keyID(op.Key))
 			start(x.ip, op.Key)
 		case "tcpClose":
 			var cand []*c17Conn
@@ -206,7 +224,7 @@ func c17InBubble(c C17Case, info *kit.Info) *kit.Finding {
 			if scrapedAfterClose[k] {
 				reopenAfterScrape = true
 			}
-			u := sm.AddUDPNatEntry(&net.UDPAddr{IP: net.ParseIP(c.IPs[op.IP]), Port: 2048 + i}, fmt.Sprintf("key-%d", op.Key))
+			u := sm.AddUDPNatEntry(&net.UDPAddr{IP: net.ParseIP(c.IPs[op.IP]), Port: 2048 + i}, c.keyID(op.Key))
 			conns = append(conns, &c17Conn{udp: u, ip: op.IP, key: op.Key})
 			start(op.IP, op.Key)
 		case "udpRemove":
@@ -272,11 +290,11 @@ func c17InBubble(c C17Case, info *kit.Info) *kit.Finding {
 						}
 					}
 				}
-				got := perKey[fmt.Sprintf("key-%d", k)]
+				got := perKey[c.keyID(k)]
 				sumKeys += got
 				tol := 1e-6 * float64(segs+1)
 				if math.Abs(got-want.Seconds()) > tol {
-					return kit.Violation("tunneltime:wrong-total", "op %d (scrape %d): tunnel_time_seconds{key-%d} = %.6f s, the ledger says %.6f s (difference %.6f s)", i, scrapes, k, got, want.Seconds(), got-want.Seconds())
+					return kit.Violation("tunneltime:wrong-total", "op %d (scrape %d): tunnel_time_seconds{%s} = %.6f s, the ledger says %.6f s (difference %.6f s)", i, scrapes, c.keyID(k), got, want.Seconds(), got-want.Seconds())
 				}
 			}
 			if math.Abs(sumKeys-sumLoc) > 1e-6*float64(segs+1) {
